@@ -13,7 +13,7 @@
    [repaired]    the code with the three repairs (hierarchy reset, Nref restored, try/finally in
                  get_RelaxationTensor); [pinned] the code as found. *)
 From Coq Require Import List Bool Arith.
-From QV Require Import Model.C15 Proofs.C15.
+From QV Require Import Model.C15 Proofs.C15 Proofs.C15gen.
 Import ListNotations.
 
 (* For EVERY history of calls on the shared objects, in every interpretation of the kernels: all input
@@ -91,6 +91,23 @@ Proof.
 Qed.
 Print Assumptions c15_reltensor_exception_refuted.
 
+(* ---- the static tie (harness/translate_c15.py) compares, per shape of call, the fields the current source may write with
+   [model_written] / [model_changed] of the model's programs.  What that comparison buys: ---- *)
+
+(* the fields the model's symbolic run of a call of the property leaves changed are never input fields *)
+Theorem c15_changed_fields_not_inputs : forall s, api s = true ->
+  forallb (fun f => negb (is_input f)) (model_changed s) = true.
+Proof. exact model_changed_not_input. Qed.
+Print Assumptions c15_changed_fields_not_inputs.
+
+(* hence a write set of the code accepted by [changed_ok] (every field whose last write may leave it changed - not a
+   restore of the value found, not the recovery of the cut-off subtraction, not the clean value of a flag - is one the
+   model changes) cannot leave an input field changed *)
+Theorem c15_accepted_write_set_keeps_inputs : forall s (code : list (field * list wkind)), api s = true ->
+  changed_ok s code = true -> forall f ks, In (f, ks) code -> existsb (may_change f) ks = true -> is_input f = false.
+Proof. exact changed_ok_no_input. Qed.
+Print Assumptions c15_accepted_write_set_keeps_inputs.
+
 (* non-vacuity: a concrete history through all object kinds in the free interpretation; the combined
    tensor construction restores the Hamiltonian (the law fires), results repeat, hidden state moved *)
 Example c15_example :
@@ -106,3 +123,10 @@ Example c15_example :
 Proof.
   vm_compute. repeat split; try reflexivity; apply expr_neq; vm_compute; reflexivity.
 Qed.
+(* [changed_ok] is not vacuous: it accepts the restore of the refinement and rejects a plain overwrite of it *)
+Example c15_example_changed_ok :
+  changed_ok (DMProp (PT T) true) [(PConf (PT T), [WRestore])] = true /\
+  changed_ok (DMProp (PT T) true) [(PConf (PT T), [WAny])] = false /\
+  changed_ok (RelT CRF) [(HamData, [WAddBack]); (HamProt, [WConst CFalse]); (HamJR, [WAny])] = true /\
+  changed_ok (RelT CRF) [(HamData, [WSub])] = false.
+Proof. vm_compute. repeat split; reflexivity. Qed.
